@@ -394,6 +394,20 @@ CHECKS['C07'] = {
     ],
 }
 
+CHECKS['C06'] = {
+    'level': 'fault_enumeration',
+    'technique': 'stateful fuzzing with an invariance oracle on the real server run in-process: after every generated adversary command the victim\'s subtree / index / parameters / connection snapshot (in-process walk) must be unchanged and privileged commands must bounce; connection-cut fault injection at generated byte offsets of a leaver\'s pending output followed by an in-process walk for leftovers',
+    'level_text': ('(isolation) Adversary / victim / witness: up to 40 generated commands from the shared hostile command generator with the victim\'s host name and session id spliced into the clause table (absolute paths, "..", wildcards at host and session level, REORDER / INSERTORDERED / REMOVE with such paths, KICK, ADDBANS, REMOVEBANS, privilege bits, forged session fields, nested BATCHes); after every command and a pump to quiescence the victim\'s snapshot is compared byte for byte, the witness subscribed to the victim\'s nodes must have been told nothing, KICK/BAN/REQUIRE commands must bounce with ERRORACCESSDENIED; a fresh session\'s first ordered children must be named I0, I1. '
+                   '(cleanup) Leaver / stayer / witness: the leaver runs 0-11 generated commands, queues 1-3 more, and is cut after k in [0,1023] bytes of its pending output; afterwards: no node under its path, its id in no subscriber table, the witness told about every node it had been shown, host node gone iff empty, and no stray node when the last session leaves. Held = on every generated history and cut position.'),
+    'level_note': RH_NOTE + ' The "every subscriber is told" clause is skipped (counted) for histories in which the leaver used quiet flags or BATCHes (quiet removal is documented not to notify). The metamorphic "same history without the departed session" run is not built; its clause is covered through the leftovers walk and the I0/I1 naming witness.',
+    'rule': ('Byte-decoded cases, half isolation, half cleanup. Non-trivial: (isolation) at least one adversary path addresses the victim\'s subtree (absolute, host and session clause literal or wildcard, >= 3 clauses); (cleanup) the cut fell strictly inside the pending output. Distinct: hash of the decoded commands (and cut position).'),
+    'assumptions': [],
+    'targets': [
+        {'name': 'c06_isolation', 'src': ['harness/C06_isolation.cpp'], 'quick_n': 40000, 'thorough_n': 2000000, 'maxlen': 600, 'min_nontrivial': 5000, 'budget': 30,
+         'class_floors': {'mode_isolation': 10000, 'mode_cleanup': 10000, 'case_adversary_addressed_victim_subtree': 3000, 'case_cut_strictly_inside_pending_output': 3000, 'privileged_commands_bounced': 1000}},
+    ],
+}
+
 
 def setup():
     t0 = time.time()
